@@ -32,8 +32,8 @@ noncomputable def energy (dt : Data ℝ) (st : State ℝ) : ℝ :=
   likEnergy dt st + priW0 dt st + priV0 dt st + priW dt st + priV2 dt st + priV1 dt st
 
 /-- a sum over units with one unit replaced: the replaced unit's term plus the untouched rest -/
-theorem sum_upd_split {β : Type} (n c : ℕ) (hc : c < n) (f : ℕ → β) (a : β) (g : β → ℝ) :
-    ∑ i ∈ range n, g (upd f c a i) = g a + ∑ i ∈ (range n).erase c, g (f i) := by
+theorem sum_upd_split {β : Type} (n c : ℕ) (hc : c < n) (f : ℕ → β) (a : β) (g : ℕ → β → ℝ) :
+    ∑ i ∈ range n, g i (upd f c a i) = g c a + ∑ i ∈ (range n).erase c, g i (f i) := by
   rw [← add_sum_erase (range n) _ (mem_range.mpr hc), upd_same]
   congr 1
   apply sum_congr rfl; intro i hi
@@ -59,7 +59,7 @@ theorem energy_W (dt : Data ℝ) (st : State ℝ) (c : ℕ) (hc : c < dt.nC) (x 
   have hp : priW dt (setW st c x) = (1/2) * (∑ d ∈ range dt.D, st.tau d * x d ^ 2
       + ∑ i ∈ (range dt.nC).erase c, ∑ d ∈ range dt.D, st.tau d * st.W i d ^ 2) := by
     unfold priW setW
-    rw [sum_upd_split dt.nC c hc st.W x (fun row => ∑ d ∈ range dt.D, st.tau d * row d ^ 2)]
+    rw [sum_upd_split dt.nC c hc st.W x (fun _ row => ∑ d ∈ range dt.D, st.tau d * row d ^ 2)]
   rw [hp]
   show _ + priW0 dt st + priV0 dt st + _ + priV2 dt st + priV1 dt st = _
   show (1/2) * st.prec * _ + _ + _ + _ + _ + _ = _
@@ -77,8 +77,195 @@ theorem energy_V2 (dt : Data ℝ) (hw : WellFormed dt) (hp : NoSelfPair dt) (st 
   have hq : priV2 dt (setV2 st m x) = (1/2) * (∑ d ∈ range dt.D, (st.phi2 m d * st.eta2 d) * x d ^ 2
       + ∑ i ∈ (range dt.nT).erase m, ∑ d ∈ range dt.D, (st.phi2 i d * st.eta2 d) * st.V2 i d ^ 2) := by
     unfold priV2 setV2
-    have := sum_upd_split dt.nT m hm st.V2 x
-    sorry
-  sorry
+    rw [sum_upd_split dt.nT m hm st.V2 x (fun i row => ∑ d ∈ range dt.D, (st.phi2 i d * st.eta2 d) * row d ^ 2)]
+  rw [hq]
+  show _ + priW0 dt st + priV0 dt st + priW dt st + _ + priV1 dt st = _
+  show (1/2) * st.prec * _ + _ + _ + _ + _ + _ = _
+  ring
+
+theorem energy_V1 (dt : Data ℝ) (hw : WellFormed dt) (hp : NoSelfPair dt) (st : State ℝ) (m : ℕ) (hm : m < dt.nT)
+    (x : ℕ → ℝ) :
+    energy dt (setV1 st m x)
+      = blockEnergy dt.N dt.D st.prec (v1Blk dt st m).design (fun n => dt.y n - mu dt (setV1 st m (fun _ => 0)) n)
+          (fun d => st.phi1 m d * st.eta1 d) x
+        + ((1/2) * ∑ i ∈ (range dt.nT).erase m, ∑ d ∈ range dt.D, (st.phi1 i d * st.eta1 d) * st.V1 i d ^ 2
+            + priW0 dt st + priV0 dt st + priW dt st + priV2 dt st) := by
+  unfold energy blockEnergy
+  rw [lik_of_affine dt (setV1 st m x) dt.D _ _ x (fun n hn => mu_affine_V1 dt hw hp st m x n hn)]
+  have hq : priV1 dt (setV1 st m x) = (1/2) * (∑ d ∈ range dt.D, (st.phi1 m d * st.eta1 d) * x d ^ 2
+      + ∑ i ∈ (range dt.nT).erase m, ∑ d ∈ range dt.D, (st.phi1 i d * st.eta1 d) * st.V1 i d ^ 2) := by
+    unfold priV1 setV1
+    rw [sum_upd_split dt.nT m hm st.V1 x (fun i row => ∑ d ∈ range dt.D, (st.phi1 i d * st.eta1 d) * row d ^ 2)]
+  rw [hq]
+  show _ + priW0 dt st + priV0 dt st + priW dt st + priV2 dt st + _ = _
+  show (1/2) * st.prec * _ + _ + _ + _ + _ + _ = _
+  ring
+
+/-! ### scalar blocks -/
+
+theorem lik_of_affine_s (dt : Data ℝ) (st : State ℝ) (base i : ℕ → ℝ) (x : ℝ)
+    (h : ∀ n, n < dt.N → mu dt st n = base n + i n * x) :
+    likEnergy dt st = (1/2) * st.prec * ∑ n ∈ range dt.N, ((dt.y n - base n) - i n * x)^2 := by
+  unfold likEnergy
+  congr 1
+  apply sum_congr rfl; intro n hn
+  rw [h n (mem_range.mp hn)]; ring
+
+theorem energy_W0 (dt : Data ℝ) (st : State ℝ) (c : ℕ) (hc : c < dt.nC) (x : ℝ) :
+    energy dt (setW0 st c x)
+      = ((1/2) * st.prec * ∑ n ∈ range dt.N, ((dt.y n - mu dt (setW0 st c 0) n) - sDesign (selC dt c) selNone n * x)^2
+          + (1/2) * st.tau0 * x^2)
+        + ((1/2) * ∑ i ∈ (range dt.nC).erase c, st.tau0 * st.W0 i ^ 2
+            + priV0 dt st + priW dt st + priV2 dt st + priV1 dt st) := by
+  unfold energy
+  rw [lik_of_affine_s dt (setW0 st c x) _ _ x (fun n _ => mu_affine_W0 dt st c x n)]
+  have hq : priW0 dt (setW0 st c x) = (1/2) * (st.tau0 * x ^ 2 + ∑ i ∈ (range dt.nC).erase c, st.tau0 * st.W0 i ^ 2) := by
+    unfold priW0 setW0
+    rw [sum_upd_split dt.nC c hc st.W0 x (fun _ v => st.tau0 * v ^ 2)]
+  rw [hq]
+  show _ + _ + priV0 dt st + priW dt st + priV2 dt st + priV1 dt st = _
+  show (1/2) * st.prec * _ + _ + _ + _ + _ + _ = _
+  ring
+
+theorem energy_V0 (dt : Data ℝ) (hw : WellFormed dt) (hp : NoSelfPair dt) (st : State ℝ) (m : ℕ) (hm : m < dt.nT)
+    (x : ℝ) :
+    energy dt (setV0 st m x)
+      = ((1/2) * st.prec * ∑ n ∈ range dt.N,
+            ((dt.y n - mu dt (setV0 st m 0) n) - sDesign (sel1 dt m) (sel2 dt m) n * x)^2
+          + (1/2) * (st.phi0 m * st.eta0) * x^2)
+        + ((1/2) * ∑ i ∈ (range dt.nT).erase m, (st.phi0 i * st.eta0) * st.V0 i ^ 2
+            + priW0 dt st + priW dt st + priV2 dt st + priV1 dt st) := by
+  unfold energy
+  rw [lik_of_affine_s dt (setV0 st m x) _ _ x (fun n hn => mu_affine_V0 dt hw hp st m x n hn)]
+  have hq : priV0 dt (setV0 st m x) = (1/2) * ((st.phi0 m * st.eta0) * x ^ 2
+      + ∑ i ∈ (range dt.nT).erase m, (st.phi0 i * st.eta0) * st.V0 i ^ 2) := by
+    unfold priV0 setV0
+    rw [sum_upd_split dt.nT m hm st.V0 x (fun i v => (st.phi0 i * st.eta0) * v ^ 2)]
+  rw [hq]
+  show _ + priW0 dt st + _ + priW dt st + priV2 dt st + priV1 dt st = _
+  show (1/2) * st.prec * _ + _ + _ + _ + _ + _ = _
+  ring
+
+/-! ### the block theorems in difference form -/
+
+theorem cur_cache_W (dt : Data ℝ) (st : State ℝ) (h : CacheOK dt st) (c : ℕ) (n : ℕ) (hn : n < dt.N) :
+    st.Mu n = mu dt (setW st c (fun _ => 0)) n + ∑ d ∈ range dt.D, (wBlk dt st c).design n d * st.W c d := by
+  rw [h n hn, ← mu_affine_W, setW_self]
+
+theorem noSelf_wBlk (dt : Data ℝ) (st : State ℝ) (c : ℕ) : (wBlk dt st c).NoSelf := noSelf_selC dt c
+theorem noSelf_v2Blk (dt : Data ℝ) (hp : NoSelfPair dt) (st : State ℝ) (m : ℕ) : (v2Blk dt st m).NoSelf :=
+  noSelf_of_noSelfPair dt hp m
+theorem noSelf_v1Blk (dt : Data ℝ) (hp : NoSelfPair dt) (st : State ℝ) (m : ℕ) : (v1Blk dt st m).NoSelf :=
+  noSelf_of_noSelfPair dt hp m
+
+theorem block_W (dt : Data ℝ) (st : State ℝ) (h : CacheOK dt st) (c : ℕ) (hc : c < dt.nC) (x : ℕ → ℝ) :
+    energy dt (setW st c x) - energy dt (setW st c (fun _ => 0))
+      = (1/2) * ∑ d ∈ range dt.D, ∑ e ∈ range dt.D, x d * (wBlk dt st c).Q st.prec d e * x e
+        - ∑ d ∈ range dt.D, (wBlk dt st c).muPart dt.y st.Mu st.prec d * x d := by
+  rw [energy_W dt st c hc x, energy_W dt st c hc (fun _ => 0)]
+  have G := gaussian_block dt.N dt.D st.prec (wBlk dt st c).design
+    (fun n => dt.y n - mu dt (setW st c (fun _ => 0)) n) st.tau x
+  have hQ : ∀ d e, (wBlk dt st c).Q st.prec d e = blockQ dt.N st.prec (wBlk dt st c).design st.tau d e :=
+    fun d e => Blk.Q_spec _ (noSelf_wBlk dt st c) _ d e
+  have hB : ∀ d, (wBlk dt st c).muPart dt.y st.Mu st.prec d
+      = blockB dt.N st.prec (wBlk dt st c).design (fun n => dt.y n - mu dt (setW st c (fun _ => 0)) n) d :=
+    fun d => Blk.muPart_spec _ (noSelf_wBlk dt st c) _ _ (fun n => mu dt (setW st c (fun _ => 0)) n) _
+      (fun n hn => cur_cache_W dt st h c n hn) d
+  simp only [hQ, hB]
+  linarith [G]
+
+
+theorem cur_cache_V2 (dt : Data ℝ) (hw : WellFormed dt) (hp : NoSelfPair dt) (st : State ℝ) (h : CacheOK dt st) (m : ℕ) (n : ℕ) (hn : n < dt.N) :
+    st.Mu n = mu dt (setV2 st m (fun _ => 0)) n + ∑ d ∈ range dt.D, (v2Blk dt st m).design n d * st.V2 m d := by
+  rw [h n hn, ← mu_affine_V2 dt hw hp st m _ n hn, setV2_self]
+
+theorem block_V2 (dt : Data ℝ) (hw : WellFormed dt) (hp : NoSelfPair dt) (st : State ℝ) (h : CacheOK dt st) (m : ℕ) (hm : m < dt.nT) (x : ℕ → ℝ) :
+    energy dt (setV2 st m x) - energy dt (setV2 st m (fun _ => 0))
+      = (1/2) * ∑ d ∈ range dt.D, ∑ e ∈ range dt.D, x d * (v2Blk dt st m).Q st.prec d e * x e
+        - ∑ d ∈ range dt.D, (v2Blk dt st m).muPart dt.y st.Mu st.prec d * x d := by
+  rw [energy_V2 dt hw hp st m hm x, energy_V2 dt hw hp st m hm (fun _ => 0)]
+  have G := gaussian_block dt.N dt.D st.prec (v2Blk dt st m).design
+    (fun n => dt.y n - mu dt (setV2 st m (fun _ => 0)) n) (fun d => st.phi2 m d * st.eta2 d) x
+  have hQ : ∀ d e, (v2Blk dt st m).Q st.prec d e
+      = blockQ dt.N st.prec (v2Blk dt st m).design (fun d => st.phi2 m d * st.eta2 d) d e :=
+    fun d e => Blk.Q_spec _ (noSelf_v2Blk dt hp st m) _ d e
+  have hB : ∀ d, (v2Blk dt st m).muPart dt.y st.Mu st.prec d
+      = blockB dt.N st.prec (v2Blk dt st m).design (fun n => dt.y n - mu dt (setV2 st m (fun _ => 0)) n) d :=
+    fun d => Blk.muPart_spec _ (noSelf_v2Blk dt hp st m) _ _ (fun n => mu dt (setV2 st m (fun _ => 0)) n) _
+      (fun n hn => cur_cache_V2 dt hw hp st h m n hn) d
+  simp only [hQ, hB]
+  linarith [G]
+
+theorem cur_cache_V1 (dt : Data ℝ) (hw : WellFormed dt) (hp : NoSelfPair dt) (st : State ℝ) (h : CacheOK dt st) (m : ℕ) (n : ℕ) (hn : n < dt.N) :
+    st.Mu n = mu dt (setV1 st m (fun _ => 0)) n + ∑ d ∈ range dt.D, (v1Blk dt st m).design n d * st.V1 m d := by
+  rw [h n hn, ← mu_affine_V1 dt hw hp st m _ n hn, setV1_self]
+
+theorem block_V1 (dt : Data ℝ) (hw : WellFormed dt) (hp : NoSelfPair dt) (st : State ℝ) (h : CacheOK dt st) (m : ℕ) (hm : m < dt.nT) (x : ℕ → ℝ) :
+    energy dt (setV1 st m x) - energy dt (setV1 st m (fun _ => 0))
+      = (1/2) * ∑ d ∈ range dt.D, ∑ e ∈ range dt.D, x d * (v1Blk dt st m).Q st.prec d e * x e
+        - ∑ d ∈ range dt.D, (v1Blk dt st m).muPart dt.y st.Mu st.prec d * x d := by
+  rw [energy_V1 dt hw hp st m hm x, energy_V1 dt hw hp st m hm (fun _ => 0)]
+  have G := gaussian_block dt.N dt.D st.prec (v1Blk dt st m).design
+    (fun n => dt.y n - mu dt (setV1 st m (fun _ => 0)) n) (fun d => st.phi1 m d * st.eta1 d) x
+  have hQ : ∀ d e, (v1Blk dt st m).Q st.prec d e
+      = blockQ dt.N st.prec (v1Blk dt st m).design (fun d => st.phi1 m d * st.eta1 d) d e :=
+    fun d e => Blk.Q_spec _ (noSelf_v1Blk dt hp st m) _ d e
+  have hB : ∀ d, (v1Blk dt st m).muPart dt.y st.Mu st.prec d
+      = blockB dt.N st.prec (v1Blk dt st m).design (fun n => dt.y n - mu dt (setV1 st m (fun _ => 0)) n) d :=
+    fun d => Blk.muPart_spec _ (noSelf_v1Blk dt hp st m) _ _ (fun n => mu dt (setV1 st m (fun _ => 0)) n) _
+      (fun n hn => cur_cache_V1 dt hw hp st h m n hn) d
+  simp only [hQ, hB]
+  linarith [G]
+
+theorem cur_cache_W0 (dt : Data ℝ) (st : State ℝ) (h : CacheOK dt st) (c : ℕ) (n : ℕ) (hn : n < dt.N) :
+    st.Mu n = mu dt (setW0 st c 0) n + sDesign (selC dt c) selNone n * st.W0 c := by
+  rw [h n hn, ← mu_affine_W0, setW0_self]
+
+theorem cur_cache_V0 (dt : Data ℝ) (hw : WellFormed dt) (hp : NoSelfPair dt) (st : State ℝ) (h : CacheOK dt st)
+    (m : ℕ) (n : ℕ) (hn : n < dt.N) :
+    st.Mu n = mu dt (setV0 st m 0) n + sDesign (sel1 dt m) (sel2 dt m) n * st.V0 m := by
+  rw [h n hn, ← mu_affine_V0 dt hw hp st m _ n hn, setV0_self]
+
+/-- canonical parameters of the conditional of `W0[c]` -/
+noncomputable def qW0 (dt : Data ℝ) (st : State ℝ) (c : ℕ) : ℝ := sQ dt.N (selC dt c) selNone st.prec st.tau0
+noncomputable def bW0 (dt : Data ℝ) (st : State ℝ) (c : ℕ) : ℝ :=
+  sB dt.N (selC dt c) selNone st.prec (fun n => dt.y n - mu dt (setW0 st c 0) n)
+noncomputable def qV0 (dt : Data ℝ) (st : State ℝ) (m : ℕ) : ℝ :=
+  sQ dt.N (sel1 dt m) (sel2 dt m) st.prec (st.phi0 m * st.eta0)
+noncomputable def bV0 (dt : Data ℝ) (st : State ℝ) (m : ℕ) : ℝ :=
+  sB dt.N (sel1 dt m) (sel2 dt m) st.prec (fun n => dt.y n - mu dt (setV0 st m 0) n)
+
+theorem block_W0 (dt : Data ℝ) (st : State ℝ) (c : ℕ) (hc : c < dt.nC) (x : ℝ) :
+    energy dt (setW0 st c x) - energy dt (setW0 st c 0) = (1/2) * qW0 dt st c * x^2 - bW0 dt st c * x := by
+  rw [energy_W0 dt st c hc x, energy_W0 dt st c hc 0]
+  have G := scalar_block dt.N (selC dt c) selNone st.prec st.tau0 (fun n => dt.y n - mu dt (setW0 st c 0) n) x
+  unfold qW0 bW0
+  linarith [G]
+
+theorem block_V0 (dt : Data ℝ) (hw : WellFormed dt) (hp : NoSelfPair dt) (st : State ℝ) (m : ℕ) (hm : m < dt.nT)
+    (x : ℝ) :
+    energy dt (setV0 st m x) - energy dt (setV0 st m 0) = (1/2) * qV0 dt st m * x^2 - bV0 dt st m * x := by
+  rw [energy_V0 dt hw hp st m hm x, energy_V0 dt hw hp st m hm 0]
+  have G := scalar_block dt.N (sel1 dt m) (sel2 dt m) st.prec (st.phi0 m * st.eta0)
+    (fun n => dt.y n - mu dt (setV0 st m 0) n) x
+  unfold qV0 bV0
+  linarith [G]
+
+theorem args_W0 (dt : Data ℝ) (st : State ℝ) (h : CacheOK dt st) (c : ℕ) :
+    w0Args dt st c = ⟨bW0 dt st c / qW0 dt st c, 1 / Real.sqrt (qW0 dt st c)⟩ :=
+  sArgs_spec dt.N (selC dt c) selNone (noSelf_selC dt c) dt.y st.Mu (fun n => mu dt (setW0 st c 0) n)
+    st.prec st.tau0 (st.W0 c) (fun n hn => cur_cache_W0 dt st h c n hn)
+
+theorem args_V0 (dt : Data ℝ) (hw : WellFormed dt) (hp : NoSelfPair dt) (st : State ℝ) (h : CacheOK dt st) (m : ℕ) :
+    v0Args dt st m = ⟨bV0 dt st m / qV0 dt st m, 1 / Real.sqrt (qV0 dt st m)⟩ :=
+  sArgs_spec dt.N (sel1 dt m) (sel2 dt m) (noSelf_of_noSelfPair dt hp m) dt.y st.Mu
+    (fun n => mu dt (setV0 st m 0) n) st.prec (st.phi0 m * st.eta0) (st.V0 m)
+    (fun n hn => cur_cache_V0 dt hw hp st h m n hn)
+
+theorem sQ_pos (N : ℕ) (s1 s2 : ℕ → Bool) (prec lam : ℝ) (hp : 0 ≤ prec) (hl : 0 < lam) : 0 < sQ N s1 s2 prec lam := by
+  unfold sQ
+  have : 0 ≤ ∑ n ∈ range N, sDesign s1 s2 n * sDesign s1 s2 n := sum_nonneg (fun n _ => mul_self_nonneg _)
+  have := mul_nonneg hp this
+  linarith
 
 end Batchie.Gibbs
